@@ -14,11 +14,11 @@ TIERS = {
     'quick': dict(shards=8, max_dnas=6, family_stride=4, random=28, dnas=4,
                   iter_max=24, corrupt=2, max_nodes=45, history=6,
                   family_history=3, grid_stride=2, wrong_shapes=3, flagged=0.15,
-                  timeout_s=600),
+                  refs=4, reuse=5, timeout_s=600),
     'thorough': dict(shards=16, max_dnas=24, family_stride=1, random=190,
                      dnas=8, iter_max=60, corrupt=3, max_nodes=60, history=8,
                      family_history=3, grid_stride=1, wrong_shapes=4, flagged=0.15,
-                     timeout_s=3000,
+                     refs=30, reuse=40, timeout_s=3000,
                      case_timeout_s=300),
 }
 RULE = ('case = one template description (gen/templates.py) with a `where` '
@@ -129,7 +129,8 @@ def my_grid(ctx):
 
 
 def cases(ctx):
-  return len(my_part(ctx)) + len(my_grid(ctx)) + int(ctx.params['random'])
+  return (len(my_part(ctx)) + len(my_grid(ctx)) + int(ctx.params['random'])
+          + int(ctx.params.get('refs', 0)) + int(ctx.params.get('reuse', 0)))
 
 
 # --------------------------------------------------------------------------
@@ -238,6 +239,8 @@ def apply_flags(T, flags):
 class Case:
   """One template under test."""
 
+  reused = False     # ReuseCase: the placeholder object was offered before
+
   def __init__(self, T, W, plain, bad_size, entry, flags=None):
     self.T, self.W, self.plain, self.entry = T, W, plain, entry
     # [kind, [path tokens of a container of the template value, ...]]: the
@@ -256,6 +259,9 @@ class Case:
     self.dist = TT.distinguishable(T, W)
     self.where = TT.where_fn(W)
     self.bound_spec = TT.has_bound_spec(T)
+    # value references (derived values) of the constant part: path tokens
+    self.has_ref = TT.has_ref(T)
+    self.ref_paths = [p for _, _, p, _ in TT.ref_sites(T, W) if p is not None]
     self._dnas = {}
     self.record = {'template': TT.show(T), 'where': TT.show_where(W),
                    'entry': entry, 'plain_root': plain, 'description': T,
@@ -281,6 +287,10 @@ class Case:
     be attributed to one placeholder."""
     if self.plain:
       return 'plain-container-root'
+    if self.has_ref:
+      return 'value-reference'
+    if self.reused:
+      return 'reused-placeholder'
     if self.flags:
       return self.flags[0] + '-template'
     if self.bad_size:
@@ -301,6 +311,9 @@ class Case:
     for path, P in self.tops:
       if TT.canon_get(a, path) != TT.canon_get(b, path):
         return family_of(P) + ('/conditional' if is_conditional(P, self.W) else '')
+    for path in self.ref_paths:
+      if TT.canon_get(a, path) != TT.canon_get(b, path):
+        return 'value-reference'
     return 'constant-part'
 
   def alias_region(self, a, b):
@@ -1634,7 +1647,7 @@ def run_case(ctx, i):
            and check_random(ctx, cs) is not False
            and check_nonmembers(ctx, cs, members)
            and check_encode_wrong_shapes(ctx, cs, members))
-  if alive and W['by'] == 'all' and not bad and not cs.misfit and not any(
+  if alive and W['by'] == 'all' and not bad and not cs.misfit and not cs.has_ref and not any(
       p['name'] for p in TT.all_placeholders(T)):
     check_dynamic(ctx, cs, members)         # names share decisions there: not generated
   n_members = cs.size if cs.size is not None else 2
